@@ -84,9 +84,9 @@ func init() {
 	}
 	plans["C01"] = plan{
 		Level: "exploration",
-		Parts: []part{{"A", "c01", 2800, 5, 200}, {"A", "nofault", 300, 1, 200}, {"A", "limits", 600, 1, 200}},
+		Parts: []part{{"A", "c01", 2400, 5, 200}, {"A", "c01two", 700, 2, 200}, {"A", "nofault", 300, 1, 200}, {"A", "limits", 600, 1, 200}},
 		Rule: "world A: each run = one seeded scenario (1-4 syslog clients with bursts, pauses around the flush interval and records split across writes; 1-5 key tuples; knobs for batch size, memory window, chunk limits, message mode, timeouts; a script of upstream behaviour per connection attempt: refuse / connect timeout / reset after k messages / reset mid-stream / never ACK / late ACK / ACK of unknown id / accept but never read / close; graceful stop+restart generations on the same queue directory; SIGUSR1; a fault-free tail) executed under one seeded goroutine schedule. " +
-			"Oracle C01: every record whose final newline the agent read and that the marker filter does not drop is, after the final stop, inside a message the upstream acknowledged or inside a chunk file of the queue directory; every delivered event equals the reference event of its own record (exceptions: the unfinished last line of a connection, exactly as FlushAll hands it over); no event without a sent record; dropped_chunks_total stays 0 unless the profile configures reachable limits, where loss is allowed only when counted; bounded liveness after the upstream became healthy. Non-trivial: at least one fault fired and oracle obligations were evaluated; distinct = (scenario hash, context-switch hash).",
+			"Oracle C01: every record whose final newline the agent read and that the marker filter does not drop is, after the final stop, inside a message the upstream acknowledged or inside a chunk file of the queue directory; every delivered event equals the reference event of its own record (exceptions: the unfinished last line of a connection, exactly as FlushAll hands it over); no event without a sent record; dropped_chunks_total stays 0 unless the profile configures reachable limits, where loss is allowed only when counted; bounded liveness after the upstream became healthy. Profile c01two configures a second output/buffer pair (other message mode and serialization settings, its own queue root and its own upstream running the same fault script on its own connection attempts): the same obligations hold for each output separately. Non-trivial: at least one fault fired and oracle obligations were evaluated; distinct = (scenario hash, context-switch hash).",
 		Real: []string{"the whole agent as run.Run assembles it: run.Loader/Reloader, sysloginput, tcplistener, syslogparser, transforms, byKeySet orchestrator, pipelines, fluentdforward serializer/chunk maker/client, baseoutput, hybridbuffer, util/files.go, metrics", "gotils channels, promext", "fluentlib forwardprotocol + msgpack (decoding on the fake server side)"},
 		Stub: []string{"TCP both ways (simnet)", "disk (simfs)", "signals (simsignal)", "syslog clients", "fake Fluentd Forward server scripted per connection attempt", "driver (graceful stop + restart, SIGHUP with rewritten config file, SIGUSR1)", "sync.Pool (simsync.Pool)"},
 		Assumption: []string{
